@@ -87,7 +87,8 @@ type Scenario struct {
 	Lenient bool
 	// Shared is scenario-level scratch space for Prepare / Twin / monitors.
 	Shared map[string]any
-	// FleetTimeout is the fleet instance ready timeout handed to the provider.
+	// FleetTimeout is the fleet instance ready timeout handed to the provider (0 = 2.5 s; negative = a
+	// configured timeout of zero).
 	FleetTimeout time.Duration
 }
 
@@ -221,6 +222,9 @@ func ProviderConfigs(groups []GroupSpec, fleetTimeout time.Duration) []cloudprov
 		to := fleetTimeout
 		if to == 0 {
 			to = 2500 * time.Millisecond
+		}
+		if to < 0 {
+			to = 0 // aws.fleet_instance_ready_timeout: "0s" (or unparsable): validation does not look at it
 		}
 		cfgs = append(cfgs, cloudprovider.NodeGroupConfig{
 			Name:    n.Name,
